@@ -47,7 +47,7 @@ EXTRA = {
 
 def configs(tier, seed):
     out = []
-    for cid, rn, sk in funcs.instances(tier):
+    for cid, rn, sk in funcs.instances(tier, harness='C08'):
         if sk == 'field':
             continue
         for kind in ('fenchel', 'biconj', 'moreau'):
